@@ -36,7 +36,7 @@ CASE_TIMEOUT = 900
 
 
 def plan(tier, seed):
-    n = 40 if tier == "quick" else 500
+    n = 40 if tier == "quick" else 250
     return [{"seed": seed, "i": i, "tier": tier} for i in range(n)]
 
 
